@@ -195,7 +195,8 @@ JudgeBatch ==
            firstRouted == \A j \in 1..(k - 1) : BatchLocal(j)
            fpre == IF FanPre(d.topic) # {} \/ (firstRouted /\ ~BatchLocal(k)) THEN FanPre(d.topic)
                    ELSE IF BatchLocal(k) THEN {} ELSE FanPost(d.topic)
-       IN JudgeDeliver(d, BatchLocal(k), TRUE, fpre, FanPost(d.topic))
+           \* a message that reached nobody is not named by the recorder: the stimulus names it
+       IN JudgeDeliver([d EXCEPT !.m = E.act.msgs[k].m], BatchLocal(k), TRUE, fpre, FanPost(d.topic))
 
 \* --------------------------------------------------------------- fanout life cycle (every step of a gossipsub scenario)
 HbInstant == IF (E.t - HbSettle - 100) % cfg.hbMs = 0 THEN E.t - HbSettle ELSE E.t
@@ -232,7 +233,8 @@ Judge ==
                => Viol("P_C06_Never", "copy-without-acceptance", [msgs |-> Leaving \ Accepted, accepted |-> Accepted])
          /\ IF BatchOK THEN JudgeBatch
             ELSE IF ~IsBatch /\ Cardinality(Delivers) = 1 /\ E.hb = 0 /\ (Gossip => P.scoresExact)
-              THEN LET d == E.ev[CHOOSE i \in Delivers : TRUE]
+              THEN LET d0 == E.ev[CHOOSE i \in Delivers : TRUE]
+                       d  == IF E.act.a = "publish" /\ Has(E.act, "m") /\ d0.via = "self" THEN [d0 EXCEPT !.m = E.act.m] ELSE d0
                    IN JudgeDeliver(d, LocalOnly, FALSE, FanPre(d.topic), FanPost(d.topic))
               ELSE Delivers # {} => StepOut("skipped", {"skipped-step"}, [n |-> Cardinality(Delivers), hb |-> E.hb])
          /\ JudgeFanout
